@@ -40,7 +40,7 @@ Definition wop_op (x : wop) : op :=
 Definition op_writer (o : op) : option N :=
   match o with
   | Open w _ _ _ | Write w _ | Commit w _ _ | Close w => Some w
-  | Delete _ _ | DeleteC _ _ _ _ => None
+  | Delete _ _ | DeleteC _ _ _ _ | Reopen => None
   end.
 Definition m_winfo (st : db) (o : op) : N * Z * Z :=
   match op_writer o with
@@ -205,6 +205,8 @@ Definition step_ok (pre : iobs) (b : book) (o : op) (ob : sobs) : bool :=
           | None => true
           end
       | Delete _ _ | DeleteC _ _ _ _ => true
+      (* after a restart the loaded index is judged by [inv_ok] like any other state *)
+      | Reopen => true
       end
   end.
 
@@ -244,6 +246,9 @@ Definition book_step (b : book) (o : op) (ob : sobs) : book :=
       | Some wb => book_set b w (mkWB (b_start wb) (b_preset wb) (b_prev wb) (b_pending wb) false (b_taint wb))
       | None => b
       end
+  | Reopen =>
+      map (fun wx => let '(w, wb) := wx in
+             (w, mkWB (b_start wb) (b_preset wb) (b_prev wb) (b_pending wb) false (b_taint wb))) b
   | Delete a d | DeleteC a d _ _ =>
       map (fun wx => let '(w, wb) := wx in
              if b_live wb && (b_start wb <? d)
